@@ -157,6 +157,14 @@ PLANS = {
         native_per_fn={'quick': 0, 'thorough': 0}, rule='see coverage.bounded[0].rule',
         assumptions=['bounded stand-in only: run-time contract on conversions (equation about t, checker accepts the exported proof, eval agrees) and canonicity/idempotence of normalisers over generated terms and rearrangements'],
     ),
+    'C17': dict(
+        specs=[], contracts=[], targets=[], bounded=['bounded.c17_congc.run'], level='exploration',
+        native_per_fn={'quick': 0, 'thorough': 0}, rule='see coverage.bounded[0].rule',
+        assumptions=['bounded stand-in only: correctness of the Nieuwenhuis-Oliveras structure is one representation '
+                     'invariant over six aliased dictionaries with an inductively defined entailment relation, outside '
+                     'what function contracts discharged by an SMT solver can carry; explanations the HOL wrapper fails '
+                     'to construct (exception) are counted as no answer'],
+    ),
     'C20': dict(
         models=['models.imperative'], specs=['spec.imp'], contracts=['contracts.imperative'],
         targets=['imperative.expr.Var.subst', 'imperative.expr.ArrayElt.subst', 'imperative.expr.Field.subst',
